@@ -15,7 +15,7 @@
 (*                           the group element applied to the base         *)
 (*   base_value, transformed_value   outputs of Mean Sum Constant          *)
 (*                           TrimmedMean Krum equal the specification's    *)
-(*   padded_zero_columns_updated   PadZero: the outputs are logged on the  *)
+(*   padded_zero_columns_updated   PadZero / WideTo: outputs are logged on *)
 (*                           materialised columns (E.padpos, compared with *)
 (*                           PadPosSeq) plus the number of non-zero        *)
 (*                           entries on the padded columns: it must be 0   *)
@@ -66,6 +66,7 @@ GenAction(g) ==
       [] g.g = "hadamard" -> Hadamard(g.q)
       [] g.g = "zero"     -> AppendZero
       [] g.g = "pad"      -> PadZero(g.i, g.lay)       \* g.i = the logged COUNT (any 1..PadMax)
+      [] g.g = "wide"     -> WideTo(g.j, g.i, g.lay)   \* g.i = the logged total WIDTH, g.j = the exponent wk
       [] g.g = "bumpc1"   -> BumpC1(g.i)
       [] g.g = "bumpc2"   -> BumpC2(g.i)
       [] g.g = "bumpa"    -> BumpA
@@ -81,6 +82,9 @@ GenGuard(g) ==
                              /\ NormQJ(ColHadM(Q, g.q), ColHadM(J, g.q), 2 * den)[3] <= MaxDen
       [] g.g = "zero"     -> N < N0 + MaxZero
       [] g.g = "pad"      -> g.i \in 1..PadMax /\ g.lay \in PadLays
+      [] g.g = "wide"     -> /\ g.j \in 0..WideKMax /\ (g.i - N * Pow4(g.j)) \in 0..PadMax
+                             /\ (g.i = N * Pow4(g.j)) = (g.lay = "none") /\ g.lay \in PadLays \cup {"none"}
+                             /\ (g.j > 0 \/ g.i > N)
       [] g.g = "bumpc1"   -> g.i \in 1..M /\ c1[g.i] < CMax
       [] g.g = "bumpc2"   -> g.i \in 1..M /\ c2[g.i] < CMax
       [] g.g = "bumpa"    -> ca < ABMax
@@ -88,14 +92,14 @@ GenGuard(g) ==
       [] OTHER            -> FALSE
 
 TGen == /\ ep <= NEp /\ stage = "gens" /\ pos <= Len(E.gens)
-        /\ GenGuard(E.gens[pos]) /\ steps < MaxSteps /\ pad.cnt = 0
+        /\ GenGuard(E.gens[pos]) /\ steps < MaxSteps /\ pad = NoPad
         /\ GenAction(E.gens[pos])
         /\ pos' = pos + 1
         /\ UNCHANGED <<ep, stage, nAcc, nRej>>
 
 TGenReject ==
         /\ ep <= NEp /\ stage = "gens" /\ pos <= Len(E.gens)
-        /\ ~(GenGuard(E.gens[pos]) /\ steps < MaxSteps /\ pad.cnt = 0)
+        /\ ~(GenGuard(E.gens[pos]) /\ steps < MaxSteps /\ pad = NoPad)
         /\ PrintT(<<"REJECT", ToJson([ep |-> E.ep, at |-> pos, clause |-> "generator_not_enabled", agg |-> E.gens[pos].g])>>)
         /\ NextEpisode(FALSE)
         /\ UNCHANGED <<base, cls, rp, Q, den, J, P, W, c1, c2, ca, cb, pad, steps>>
@@ -106,6 +110,8 @@ TGenReject ==
 C_Instance == /\ E.J = J /\ E.den = den /\ E.P = P /\ E.W = W
               /\ E.c1 = c1 /\ E.c2 = c2 /\ E.a = ca /\ E.b = cb
               /\ E.pad = pad /\ E.padpos = PadPosSeq       \* where the driver put the materialised columns
+              /\ E.pres \in {"fresh", "refill", "view", "newview"}     \* how the argument was presented (HistLaw:
+                                                                       \* the expected values do not depend on it)
 
 KCfgSeq == SymSeqOf({fk[1] * 10 + fk[2] : fk \in KrumCfgs})
 NTM     == ((M - 1) \div 2) + 1
